@@ -339,7 +339,8 @@ def gen_scenario(rng, n, allow_fake_timer=True, allow_delegate=True, force=None)
         delegate = {'add': 100, 'mul': rng.choice([0, 20]), 'drop': rng.choice([0, 0, 0, 1, 2]),
                     'enabled': rng.random() < 0.85}
     if delegate and share_label:
-        delegate['mul'] = 0        # equal graphs get equal images: "computed for it" is looked up by label
+        # equal graphs must get equal images: "the graph computed for it" is looked up by label
+        delegate['mul'], delegate['drop'] = 0, 0
     labels = sorted({d['label'] for d in pop})
     table = {str(g): gen_row(rng, nmetrics, p_fail) for g in labels}
     if delegate:
